@@ -7,6 +7,7 @@ def jd(x):
 
 def R(o):
     k = o[0]
+    if k == "badauth" and len(o) > 2: return f"badauth {o[1]} {o[2]} j{jd(o[3]).encode().hex()}"
     if k in ("open", "close", "badauth"): return f"{k} {o[1]}"
     if k == "send": return f"send {o[1]} x{jd(o[2]).encode().hex()}"
     if k == "raw": return f"raw {o[1]} x{(o[2] if isinstance(o[2], bytes) else o[2].encode()).hex()}"
